@@ -305,7 +305,7 @@ Qed.
 Lemma env_names_nodup w c :
   NoDup (map fst (w_gvars w)) -> NoDup (map fst (c_vars c)) -> NoDup (map fst (env_of w c)).
 Proof.
-  intros Ng Nc. unfold env_of. rewrite map_app. apply NoDup_app_intro.
+  intros Ng Nc. unfold env_of. rewrite map_app, map_map. cbn [fst]. apply NoDup_app_intro.
   - exact Nc.
   - apply NoDup_map_filter; exact Ng.
   - intros x Ix I. apply in_map_iff in I as [e [E I]]. apply filter_In in I as [_ Q]. subst x.
